@@ -12,12 +12,14 @@ RULE = ("explicit-state BFS over histories of definitions (0-3 parameters in ide
         "computed by the reference model.  non-trivial = >=1 definition entry expected; distinct by expected "
         "signature list x configuration")
 
-TRIGGERS = [":keyword", ":param **kwargs:", "KW!"]
-STRIPS = ["", "^_[a-zA-Z]*_", "^_", "x", r"\W+", "^[^_]*_", "^_+|_+$", "^_pfx_|_(arg|in)$"]   # the last two: an anchored and an unanchored alternative   # the last two can match across a separator if parameters were joined
+TRIGGERS = [":keyword", ":param **kwargs:", "KW!", "\n:keyword"]      # the last one: a ':keyword' field that begins a line
+STRIPS = ["", "^_[a-zA-Z]*_", "^_", "x", r"\W+", "^[^_]*_", "^_+|_+$", "^_pfx_|_(arg|in)$", '"']   # the last two: an anchored and an unanchored alternative   # the last two can match across a separator if parameters were joined
 DOCS = [None, ["Plain text only."], ["Takes :keyword foo: a thing."], ["Doc.", ":param **kwargs: more"],
         ["Shout KW! here"], ["near miss :Keyword and kw! and :param *kwargs:"],
-        ["The :keywords: follow, KW!x too, and :param **kwargs:x"]]     # the trigger directly followed by a word character
-PARAMS = [[], ["_pfx_name"], ['"q  p\tt"', "${ref}", "[[br x]]"], ["x_arg", "_x", "_both_"]]   # two spaces and a tab inside quotes
+        ["The :keywords: follow, KW!x too, and :param **kwargs:x"],
+        ["Doc.", ":keyword OPT: a field on a line of its own"]]     # the trigger directly followed by a word character
+PARAMS = [[], ["_pfx_name"], ['"q  p\tt"', "${ref}", "[[br x]]"], ["x_arg", "_x", "_both_"],
+          ['"**kwargs"', "target"], ["first", '"**kwargs"']]     # a parameter that reads '**kwargs' once its quotes are stripped   # two spaces and a tab inside quotes
 
 
 def enabled(events, maxnest):
@@ -48,6 +50,8 @@ def enabled(events, maxnest):
         if inner in ("ct_add_test", "ct_add_section"):
             out += [{"k": "ct_add_section", "doc": 0}]
     out += [{"k": "cmake_parse_arguments"}, {"k": "set", "doc": 0}]
+    if any(k in ("function", "macro") for k in kinds):
+        out += [{"k": "cmake_parse_arguments", "argv": 1}]
     # invocations of the module's own definitions (by their fixed names) are ordinary commands
     names = {ev.get("name") for ev in events}
     out += [{"k": "generic", "doc": 0, "cmd": n, "args": ["1"]} for n in ("kw_mac", "twin_fn") if n in names]
@@ -67,10 +71,11 @@ def configs(all_of_them, some=False):
     if not all_of_them:
         return [{}]
     out = []
-    for t in TRIGGERS:
-        for s in STRIPS:
-            out.append({"kwargs_doc_trigger_string": t, "function_parameter_name_strip_regex": s,
-                        "macro_parameter_name_strip_regex": s, "member_parameter_name_strip_regex": s})
+    # every strip pattern under the default trigger, every trigger under the first two patterns (the two options act
+    # on different parts of a signature)
+    for t, s in [(TRIGGERS[0], s) for s in STRIPS] + [(t, s) for t in TRIGGERS[1:] for s in STRIPS[:2]]:
+        out.append({"kwargs_doc_trigger_string": t, "function_parameter_name_strip_regex": s,
+                    "macro_parameter_name_strip_regex": s, "member_parameter_name_strip_regex": s})
     # patterns differing per kind (a value must only act on its own kind)
     out.append({"function_parameter_name_strip_regex": "^_[a-zA-Z]*_", "macro_parameter_name_strip_regex": "x"})
     out.append({"macro_parameter_name_strip_regex": "^_", "member_parameter_name_strip_regex": "^_m_"})
